@@ -86,7 +86,9 @@ Definition check_read (c : case) (r : read) : verdict :=
 
 Definition check_case (c : case) : verdict :=
   let n := length (k_ingests c) in
-  if String.eqb (k_stream c) "dims" then
+  if String.eqb (k_stream c) "tree-readers" then
+    spec (N.eqb (rd_other (k_final c)) 0) "concurrent read-locked traversals of one tree / dictionary produced different output than a sequential one"
+  else if String.eqb (k_stream c) "dims" then
     spec (N.eqb (rd_other (k_final c)) 0) "Intersection lost a key that is in both dimensions at all times"
   else if String.eqb (k_stream c) "evict" then
     (* eviction running on top of write-back: inherits the known finding writeback-drop; only races, panics and
